@@ -361,7 +361,7 @@ def run_excel(rec):
 
 def run_shard(rec):
     quick = rec.tier == 'quick'
-    rec.deadline = time.time() + (45 if quick else 600)
+    rec.deadline = time.time() + (300 if quick else 600)
     maxd = 60 if quick else 200
     names = sorted(FAMILIES)
     idx = 0
